@@ -63,6 +63,81 @@ def gen_text_programs(rng, n: int) -> list[tuple[str, str]]:
     return out
 
 
+def gen_multiline_programs(rng, n: int) -> list[tuple[str, str]]:
+    """Programs whose diagnostics originate from multi-line statements, one (possibly) error-producing element per
+    physical line: override signatures, calls, displays, decorators, with statements, operator chains."""
+    out = []
+    for i in range(n):
+        shape = i % 7
+        k = rng.randint(3, 5)
+
+        def elem(good: str, bad_type: str) -> str:
+            r = rng.random()
+            return good if r < 0.35 else (bad_type if r < 0.8 else "undefined_%d" % rng.randint(1, 3))
+        if shape == 0:      # override with a multi-line signature: errors on parameter lines, ignorable at `def`
+            names = "abcde"[:k]
+            sup = ", ".join("%s: int" % c for c in names)
+            params = []
+            for c in names:
+                r = rng.random()
+                params.append("        %s: %s," % (c, "int" if r < 0.35 else ("str" if r < 0.8 else "Undefined%d" % rng.randint(1, 2))))
+            deco = "    @staticmethod_like\n" if rng.random() < 0.15 else ""
+            src = ("class A:\n    def f(self, %s) -> None: pass\n\nclass B(A):\n%s    def f(\n        self,\n%s\n    ) -> %s:\n        pass\n"
+                   % (sup, deco, "\n".join(params), rng.choice(["None", "None", "int"])))
+            if deco:
+                src = "def staticmethod_like(f): return f\n" + src
+        elif shape == 1:    # multi-line call
+            sig = ", ".join("p%d: int" % j for j in range(k))
+            args = "\n".join("    %s," % elem(str(j), '"s%d"' % j) for j in range(k))
+            src = "def g(%s) -> None: ...\ng(\n%s\n)\n" % (sig, args)
+        elif shape == 2:    # multi-line list / dict display in an annotated assignment
+            if rng.random() < 0.5:
+                items = "\n".join("    %s," % elem(str(j), '"s%d"' % j) for j in range(k))
+                src = "x: list[int] = [\n%s\n]\n" % items
+            else:
+                items = "\n".join("    %d: %s," % (j, elem(str(j), '"s%d"' % j)) for j in range(k))
+                src = "x: dict[int, int] = {\n%s\n}\n" % items
+        elif shape == 3:    # decorator call over several lines + the decorated def
+            args = "\n".join("    %s," % elem(str(j), '"s%d"' % j) for j in range(k))
+            sig = ", ".join("p%d: int" % j for j in range(k))
+            src = ("from typing import Callable, TypeVar\nF = TypeVar('F')\ndef dec(%s) -> Callable[[F], F]: ...\n@dec(\n%s\n)\ndef h(\n    a: int = %s,\n    b: int = %s,\n) -> None: ...\n"
+                   % (sig, args, elem("0", '"x"'), elem("1", '"y"')))
+        elif shape == 4:    # with statement, one context manager per line
+            items = ",\n".join("    cm(%s) as v%d" % (elem(str(j), '"s%d"' % j), j) for j in range(k))
+            src = ("from typing import ContextManager\ndef cm(x: int) -> ContextManager[int]: ...\nwith (\n%s\n):\n    reveal_type(v0)\n" % items)
+        elif shape == 5:    # parenthesised operator chain
+            terms = "\n".join("    %s %s" % ("+" if j else " ", elem(str(j), '"s%d"' % j)) for j in range(k))
+            src = "y = (\n%s\n)\n" % terms
+        else:               # nested multi-line calls and a method chain
+            inner = "\n".join("        %s," % elem(str(j), '"t%d"' % j) for j in range(k - 1))
+            src = ("def f(a: int, b: int = 0, c: int = 0, d: int = 0) -> int: ...\nclass C:\n    def m(self, x: int) -> 'C': ...\nz = f(\n    f(\n%s\n    ),\n    %s,\n)\nw = (\n    C()\n    .m(%s)\n    .m(%s)\n    .n()\n)\n"
+                   % (inner, elem("1", '"u"'), elem("2", '"v"'), elem("3", '"w"')))
+        out.append(("gen-ml-%d-%d" % (shape, i), src))
+    return out
+
+
+def sweep_lines(name: str, src: str, err_lines: list[int], cap: int) -> list[int]:
+    """Physical lines on which to try an ignore in turn: every line of a generated multi-line program; for a corpus
+    program the lines of the multi-line statements that contain a reported error."""
+    import ast
+    nlines = len(src.split("\n"))
+    if name.startswith("gen-ml"):
+        return list(range(1, nlines + 1))
+    try:
+        tree = ast.parse(src)
+    except (SyntaxError, ValueError, RecursionError):
+        return []
+    lines: set[int] = set()
+    for node in ast.walk(tree):
+        if isinstance(node, ast.stmt) and (node.end_lineno or node.lineno) > node.lineno:
+            hi = node.end_lineno or node.lineno
+            if isinstance(node, (ast.FunctionDef, ast.AsyncFunctionDef, ast.ClassDef, ast.If, ast.For, ast.While, ast.With, ast.Try)) and node.body:
+                hi = node.body[0].lineno - 1          # only the header of a compound statement
+            if hi > node.lineno and any(node.lineno <= e <= hi for e in err_lines):
+                lines.update(range(node.lineno, hi + 1))
+    return sorted(lines)[:cap]
+
+
 # ------------------------------------------------------------------ recorder
 class Recording:
     def __init__(self) -> None:
